@@ -386,6 +386,13 @@ def gen_dag(rng):
         for t in rng.sample(new, min(len(new), rng.choice([1, 1, 2]))):
             t[2] = -rng.randint(1, 9)
         case["rerun"] = {"consts": new, "oracle": [rng.randint(0, 7) for _ in range(n + 1)]}
+    r = rng.random()
+    if r < 0.25:
+        # completion moments other than the parent's idle poll: while a LOCAL sibling's function executes (k > 0: the
+        # k-th outstanding job comes home at that call) ...
+        case["during"] = [rng.choice([0, 1, 1, 2, 3]) for _ in range(rng.randint(2, 8))]
+    elif r < 0.35:
+        case["sync"] = True     # ... or inside submit() itself (a future that is already done when it is handed back)
     return case
 
 
@@ -396,7 +403,7 @@ def run_dag(case):
     nodes.reset()
     wf = Workflow("wf")
     wf.recovery = None
-    ex = nodes.ManualExecutor()
+    ex = nodes.SyncExecutor() if case.get("sync") else nodes.ManualExecutor()
     ch = []
     for i, nd in enumerate(case["nodes"]):
         kw = {"tag": i, "k": nd["k"]}
@@ -458,6 +465,23 @@ def run_dag(case):
         k = oracle.pop(0) if oracle else 0
         ex.complete(everyone[outs[k % len(outs)]].future)
         return True
+    during = list(case.get("during") or [])
+    busy = [False]
+
+    def on_call(tag):
+        # a local child's function starts executing: the scenario may let an outstanding job come home right now
+        if busy[0] or not during:
+            return
+        k = during.pop(0)
+        outs = [i for i, c in enumerate(everyone) if c.running and c.future is not None and not c.future.done()]
+        if k and outs:
+            busy[0] = True
+            try:
+                ex.complete(everyone[outs[(k - 1) % len(outs)]].future)
+            finally:
+                busy[0] = False
+    if during:
+        nodes.ON_CALL.append(on_call)
     exc = None
     verdict = "ok"
     with nodes.poll_hook(hook):
@@ -484,6 +508,7 @@ def run_dag(case):
            "mac_children": ([[bool(c.failed), bool(c.running)] for c in mac] if mac else []),
            "prev_outs": prev_outs}
     # let outstanding jobs finish so that nothing leaks into the next case
+    nodes.ON_CALL.clear()
     for c in everyone:
         if c.future is not None and not c.future.done():
             ex.complete(c.future)
